@@ -816,6 +816,10 @@ impl From<Yes> for u32 { fn from(_: Yes) -> u32 { 1 } }
 pub trait Mk {}
 impl Mk for Yes {}
 pub struct No;
+/// a projection the type's own where-clause must make available (C11 / C12: the where-clause is part of every generated impl)
+pub trait Pr { type Out; }
+impl Pr for Yes { type Out = Yes; }
+impl Pr for No { type Out = No; }
 
 pub fn fmt_any<T>(_: &T, f: &mut fmt::Formatter<'_>) -> fmt::Result { f.write_str("_") }
 pub fn clone_any<T>(_: &T) -> T { unreachable!() }
